@@ -55,6 +55,16 @@ EnumIndex(t, v) ==
 TStr(cs, sz) == [k |-> "str", cs |-> cs, sz |-> sz]
 TOct(sz) == [k |-> "oct", sz |-> sz]
 TBits(sz) == [k |-> "bits", sz |-> sz]
+\* ... declared with a NamedBitList.  16.2 / 16.3: trailing 0 bits are then removed (never below the lower bound of the size)
+\* or added (up to it) before the value is encoded - values that differ in trailing 0 bits are the same abstract value
+TBitsN(sz) == [k |-> "bits", sz |-> sz, named |-> TRUE]
+RECURSIVE StripZeros(_, _)
+StripZeros(v, lb) == IF Len(v) > lb /\ v[Len(v)] = 0 THEN StripZeros(SubSeq(v, 1, Len(v) - 1), lb) ELSE v
+NamedBits(t, v) ==
+  IF "named" \notin DOMAIN t THEN v
+  ELSE LET lb == IF t.sz.c = "sz" THEN t.sz.lb ELSE 0
+           s == StripZeros(v, lb)
+       IN s \o [j \in 1..(lb - Len(s)) |-> 0]
 TSeqOf(of, sz) == [k |-> "seqof", of |-> of, sz |-> sz]
 Comp(t, mode, dflt) == [t |-> t, mode |-> mode, dflt |-> dflt]
 Ident(n) == [i \in 1..n |-> i]
@@ -106,6 +116,15 @@ EncInt(con, x) ==
   ELSE IF ~con.ext THEN Constrained(con.lb, con.ub, x)
   ELSE IF InCon(con, x) THEN Cat(Ok(<<0>>), Constrained(con.lb, con.ub, x))
   ELSE Cat(Ok(<<1>>), UnconstrainedB(BOfInt(x)))
+
+\* the same for values beyond TLC's integers (a type TIntB carries its values as numbers of Big.tla; the bounds stay small)
+TIntB(con) == [k |-> "int", con |-> con, big |-> TRUE]
+EncIntB(con, xb) ==
+  IF con.c = "none" THEN UnconstrainedB(xb)
+  ELSE LET lb == BOfInt(con.lb) ub == BOfInt(con.ub) IN
+       IF ~con.ext THEN ConstrainedB(lb, ub, xb)
+       ELSE IF BLeq(lb, xb) /\ BLeq(xb, ub) THEN Cat(Ok(<<0>>), ConstrainedB(lb, ub, xb))
+       ELSE Cat(Ok(<<1>>), UnconstrainedB(xb))
 
 IsRoot(t, i) == i <= t.nroot
 \* is component i transmitted? (absent OPTIONAL, or DEFAULT equal to its default: no)
@@ -162,10 +181,10 @@ EncStr(t, v) ==
 Enc(t, v) ==
   CASE t.k = "bool"   -> Ok(<<BoolBit(v)>>)                                       \* 12
     [] t.k = "null"   -> Ok(<<>>)                                                  \* 24
-    [] t.k = "int"    -> EncInt(t.con, v)                                          \* 13
+    [] t.k = "int"    -> IF "big" \in DOMAIN t THEN EncIntB(t.con, v) ELSE EncInt(t.con, v)                                          \* 13
     [] t.k = "enum"   -> IF v >= 0 /\ v < t.nroot + t.nadd THEN Index(t.nroot, t.ext, EnumIndex(t, v)) ELSE Err   \* 14
     [] t.k = "oct"    -> EncSized(t.sz, [j \in 1..Len(v) |-> NatBits(v[j], 8)])   \* 17
-    [] t.k = "bits"   -> EncSized(t.sz, [j \in 1..Len(v) |-> <<v[j]>>])           \* 16
+    [] t.k = "bits"   -> LET w == NamedBits(t, v) IN EncSized(t.sz, [j \in 1..Len(w) |-> <<w[j]>>])   \* 16
     [] t.k = "str"    -> EncStr(t, v)                                              \* 30
     [] t.k = "seqof"  -> EncList(t, v)                                             \* 20
     [] t.k = "seq"    -> EncSeq(t, v)                                              \* 19, 21
